@@ -64,7 +64,6 @@ M = [
  ('c18_csv_quote_not_doubled', 'C18', 'src/TabularDataFile.cpp', "					row << _quote << value.replace(_quote, _equote) << _quote;", "					row << _quote << value << _quote;"),
  ('c18_csv_quote2_ends', 'C18', 'src/TabularDataFile.cpp', "			if (c == '\"')\n			{\n				value << c;\n				state = QUOTE;\n			}", "			if (c == '\"')\n			{\n				value << c;\n				state = BASE;\n			}"),
  ('c18_csv_quote_only_on_separator', 'C18', 'src/TabularDataFile.cpp', "				if (value.contains(_quote) || value.contains(_separator))", "				if (value.contains(_separator))"),
- ('c18_ini_modified_not_set_for_new_section', 'C18', 'src/IniFile.cpp', "			_lines.insert(j++, line);\n			_modified = true;", "			_lines.insert(j++, line);"), ('c16_file_endian_inverted', 'C16', 'include/asl/File.h', "		T y = (_endian == ASL_OTHER_ENDIAN) ? bytesSwapped(x) : x;\n		write(&y, sizeof(x));", "		T y = (_endian != ASL_OTHER_ENDIAN && sizeof(T) == 2) ? bytesSwapped(x) : (_endian == ASL_OTHER_ENDIAN) ? bytesSwapped(x) : x;\n		write(&y, sizeof(x));"),
  ('c16_swap8_halves_only', 'C16', 'include/asl/defs.h', "	for (int i = 0; i < n; i++)\n		by[i] = bx[n - i - 1];", "	for (int i = 0; i < n; i++)\n		by[i] = (n == 8) ? bx[(i + 4) % 8] : bx[n - i - 1];"),
  ('c16_socket_read_single_partial', 'C16', 'src/Socket.cpp', "		data = (char*)data + n;\n		s += n;\n		size -= n;\n		} while (s < size0);\n	return s;\n	}", "		data = (char*)data + n;\n		s += n;\n		size -= n;\n		} while (s < size0 && size0 > 8);\n	return s;\n	}"),
  ('c16_socket_write_no_advance', 'C16', 'src/Socket.cpp', "		data = (char*)data + n;\n		s += n;\n		size -= n;\n	} while (s < size0);\n	return s;\n}", "		s += n;\n		size -= n;\n	} while (s < size0);\n	return s;\n}"),
